@@ -458,6 +458,58 @@ def run(ctx):
                          "a numeral far outside the double range is returned as the finite Real %s: %s -> %s (saturated nine-digit exponent cancelled by >= 10^8 ignored digits / leading zeros)" % (h, desc, out),
                          {"line": line, "impl_output": out})
         ctx.count("long-text probes (>= 10^8 units, C++ only)", len(probes), judged_long)
+    # ---- API audit (checks/_c09_api.py): the other public text-to-number entry points of Digit.hpp ------------------
+    # FastStringToNumber<unsigned N>: an unchecked primitive (every unit taken as a digit, wraps in the type);
+    # HexStringToNumber<unsigned N>: stops at the first non-hex unit, keeps the low N bits. Oracle: the fold itself.
+    if exe:
+        al, want = [], []
+        for _ in range(6000 if T else 1500):
+            n = rng.randrange(0, 24)
+            bits = rng.choice([8, 16, 32, 64])
+            if rng.random() < 0.5:
+                u = [rng.choice([48, 49, 53, 57]) if rng.random() < 0.9 else rng.choice([47, 58, 65, 120, 0, 255]) for _ in range(n)]
+                v = 0
+                for i, x in enumerate(u):
+                    xc = x if x < 128 else x - 256          # `char` is signed on this target
+                    v = (xc - 48) % 2 ** bits if i == 0 else (v * 10 + xc - 48) % 2 ** bits
+                al.append("s2nfast %d %s" % (bits, core.show_units(u))); want.append(str(v))
+            else:
+                u = [rng.choice([48, 57, 65, 70, 97, 102, 49, 101]) if rng.random() < 0.92 else rng.choice([71, 103, 47, 58, 64, 96, 120]) for _ in range(n)]
+                off = rng.randrange(0, n + 1); end = rng.randrange(off, n + 1)
+                v, k = 0, off
+                while k < end:
+                    x = u[k]
+                    d = x - 48 if 48 <= x <= 57 else x - 55 if 65 <= x <= 70 else x - 87 if 97 <= x <= 102 else None
+                    if d is None:
+                        break
+                    v = ((v << 4) | d) % 2 ** bits; k += 1
+                al.append("s2nhex %d %d %d %s" % (bits, off, end, core.show_units(u))); want.append("%d %d" % (v, k))
+                if off == 0:
+                    v2, k2 = 0, 0
+                    while k2 < n:
+                        x = u[k2]
+                        d = x - 48 if 48 <= x <= 57 else x - 55 if 65 <= x <= 70 else x - 87 if 97 <= x <= 102 else None
+                        if d is None:
+                            break
+                        v2 = ((v2 << 4) | d) % 2 ** bits; k2 += 1
+                    al.append("s2nhexlen %d %s" % (bits, core.show_units(u))); want.append(str(v2))
+        aout, afaults = core.run_lines_parallel(exe, al, jobs=8)
+        for i, kind, err in afaults:
+            ctx.fail("fault:" + kind, "sanitizer fault on " + al[i], {"line": al[i], "stderr": err})
+        okc = 0
+        for l, o, w in zip(al, aout, want):
+            if o.startswith("FAULT"):
+                continue
+            okc += 1
+            if o != w:
+                ctx.fail("api:" + l.split(" ")[0], "%s returns %s, the fold gives %s" % (l, o, w), {"line": l, "impl_output": o, "expected": w})
+        ctx.count("FastStringToNumber / HexStringToNumber (both overloads), unsigned 8/16/32/64 vs the digit fold", len(al), okc)
+        try:
+            from checks import _c09_api
+            rows, unc = _c09_api.audit()
+            ctx.notes.append("public API of Digit.hpp: %d entry points, not driven by any harness: %s" % (len(rows), unc if unc else "none"))
+        except Exception as ex:                                    # the audit is a note, never a verdict
+            ctx.notes.append("API audit unavailable: %r" % (ex,))
     ctx.assumptions += [
         "code units are Nat; the routine only compares units with ASCII constants, so one model serves char/char16_t/char32_t/wchar_t (all four run in the harness, including units that are digits only after truncation)",
         "SizeT is 32 bits; inputs shorter than 2^32 units (the 32-bit exponent arithmetic of the real tail cannot wrap below 2^32 - 10^8 units once nine-digit exponents are rejected)",
